@@ -17,6 +17,7 @@ structure Booted (p : PImg) : Prop where
   init : p.hdr.init = true
   len : 2 ≤ p.len
   nextPage : 2 ≤ p.hdr.nextPage
+  bm : 2 ≤ p.bm
   catRoot : p.hdr.catRoot ≠ 0
   cat : ∃ es, p.cat = some es ∧ es.length = 2 ∧ ∀ r ∈ es, r ∈ p.idx
 
@@ -50,8 +51,8 @@ structure TreeOK (allowed covered : List Nat) (t : TreeImg) : Prop where
     replays, exactly the edges and properties of `T` -/
 structure StoreOK (T : List Tx) (cs : List CTx) (p : PImg) : Prop where
   segs : ∀ k ∈ (scan cs).segs, (segFind p k).isSome
-  segKeys : ∀ s ∈ p.segs, s.key < p.hdr.nextPage
-  treeKeys : ∀ t ∈ p.trees, t.key < p.hdr.nextPage
+  segKeys : ∀ s ∈ p.segs, s.key < p.hdr.nextPage ∧ s.key < p.bm
+  treeKeys : ∀ t ∈ p.trees, t.key < p.hdr.nextPage ∧ t.key < p.bm
   edges : ∀ e, e ∈ (scan cs).segs.flatMap (segEdges p) ++ (logRuns (scan cs).ckpt cs).flatMap (·.edges) ↔ e ∈ allEdges T
   runProps : ∀ q ∈ (logRuns (scan cs).ckpt cs).flatMap (·.props), q ∈ allProps T
   ptop : (scan cs).ptop = false
@@ -117,13 +118,18 @@ structure Frame (p0 p : PImg) : Prop where
   catRoot : p.hdr.catRoot = p0.hdr.catRoot
   len : p0.len ≤ p.len
   nextPage : p0.hdr.nextPage ≤ p.hdr.nextPage
+  bm : p0.bm ≤ p.bm
 
-theorem Frame.refl (p : PImg) : Frame p p := ⟨rfl, rfl, rfl, rfl, rfl, rfl, Nat.le_refl _, Nat.le_refl _⟩
+theorem Frame.refl (p : PImg) : Frame p p := ⟨rfl, rfl, rfl, rfl, rfl, rfl, Nat.le_refl _, Nat.le_refl _, Nat.le_refl _⟩
 
 theorem Frame.store {p0 p : PImg} {T : List Tx} {cs : List CTx} (f : Frame p0 p) (h : StoreOK T cs p0) : StoreOK T cs p where
   segs := by intro k hk; simpa [segFind, f.segs] using h.segs k hk
-  segKeys := by intro s hs; rw [f.segs] at hs; exact Nat.lt_of_lt_of_le (h.segKeys s hs) f.nextPage
-  treeKeys := by intro t ht; rw [f.trees] at ht; exact Nat.lt_of_lt_of_le (h.treeKeys t ht) f.nextPage
+  segKeys := by
+    intro s hs; rw [f.segs] at hs
+    exact ⟨Nat.lt_of_lt_of_le (h.segKeys s hs).1 f.nextPage, Nat.lt_of_lt_of_le (h.segKeys s hs).2 f.bm⟩
+  treeKeys := by
+    intro t ht; rw [f.trees] at ht
+    exact ⟨Nat.lt_of_lt_of_le (h.treeKeys t ht).1 f.nextPage, Nat.lt_of_lt_of_le (h.treeKeys t ht).2 f.bm⟩
   edges := by
     have : segEdges p = segEdges p0 := by funext k; simp [segEdges, segFind, f.segs]
     intro e; rw [this]; exact h.edges e
@@ -137,6 +143,7 @@ theorem Frame.booted {p0 p : PImg} (f : Frame p0 p) (b : Booted p0) : Booted p w
   init := by rw [f.init]; exact b.init
   len := Nat.le_trans b.len f.len
   nextPage := Nat.le_trans b.nextPage f.nextPage
+  bm := Nat.le_trans b.bm f.bm
   catRoot := by rw [f.catRoot]; exact b.catRoot
   cat := by rw [f.cat, f.idx]; exact b.cat
 
@@ -169,7 +176,7 @@ structure OKhdr (c : Nat) (p0 : PImg) (k : Nat) (pm : Meta) : Prop where
 /-- steps that cannot take a page-file image out of `NG … k` -/
 def HStep (c : Nat) (p0 : PImg) (k : Nat) : Step → Prop
   | .pg (.setLen _) _ => True
-  | .pg .bitmap _ => True
+  | .pg (.bitmap top) _ => p0.bm ≤ top
   | .pg .stats _ => True
   | .pg (.hdr pm) _ => OKhdr c p0 k pm
   | .pg (.slot j _) _ => k ≤ j
@@ -188,14 +195,15 @@ theorem ng_applyEff {N : List Nat} {c k : Nat} {p0 p : PImg} {e : PEff} {pid : N
   cases e <;> simp only [HStep] at hs
   case setLen n =>
     exact ⟨⟨hf.segs, hf.trees, hf.cat, hf.idx, hf.init, hf.catRoot,
-      Nat.le_trans hf.len (Nat.le_max_left _ _), hf.nextPage⟩, h.start, h.lo, h.hi, h.slots⟩
-  case bitmap => exact h
+      Nat.le_trans hf.len (Nat.le_max_left _ _), hf.nextPage, hf.bm⟩, h.start, h.lo, h.hi, h.slots⟩
+  case bitmap top =>
+    exact ⟨⟨hf.segs, hf.trees, hf.cat, hf.idx, hf.init, hf.catRoot, hf.len, hf.nextPage, hs⟩, h.start, h.lo, h.hi, h.slots⟩
   case stats => exact h
   case hdr pm =>
-    exact ⟨⟨hf.segs, hf.trees, hf.cat, hf.idx, hs.init, hs.catRoot, hf.len, hs.nextPage⟩,
+    exact ⟨⟨hf.segs, hf.trees, hf.cat, hf.idx, hs.init, hs.catRoot, hf.len, hs.nextPage, hf.bm⟩,
       hs.start, hs.lo, hs.hi, h.slots⟩
   case slot j x =>
-    refine ⟨⟨hf.segs, hf.trees, hf.cat, hf.idx, hf.init, hf.catRoot, hf.len, hf.nextPage⟩,
+    refine ⟨⟨hf.segs, hf.trees, hf.cat, hf.idx, hf.init, hf.catRoot, hf.len, hf.nextPage, hf.bm⟩,
       h.start, h.lo, h.hi, ?_⟩
     intro i hi
     show getSlot (setSlot p.i2e j x) i = _
